@@ -483,6 +483,14 @@ func genC05Program(r *eng.Rng, th bool) *eng.Program {
 		if i == len(p.Steps)/2 && r.Chance(1, 3) {
 			steps = append(steps, eng.Step{K: "reopen", A: "caughtup"})
 		}
+		if s.K == "batch" && i > 2 && !fat && r.Chance(1, 6) {
+			// a value that is an exact image of an older footer of this very
+			// file, placed at a page start (see Runner, "footerimage")
+			uv := []byte(fmt.Sprintf("fimg-%d-%d", i, r.Intn(1<<30)))
+			steps = append(steps, eng.Step{K: "merge", A: "plain"}, eng.Step{K: "persist"},
+				eng.Step{K: "batch", A: "footerimage", B: &model.Batch{Ops: []model.Op{{Kind: 'S', Key: []byte{}, Val: uv}}}},
+				eng.Step{K: "merge", A: "plain"}, eng.Step{K: "persist"})
+		}
 		if withRevert && s.K == "batch" && i > 3 && r.Chance(1, 3) {
 			steps = append(steps, eng.Step{K: "merge", A: "plain"}, eng.Step{K: "persist"}, eng.Step{K: "revert", N: 1 + r.Intn(3)})
 		}
